@@ -657,3 +657,14 @@ Proof.
   cbn [step]. destruct (aget h (hs s)) as [hd|]; [|discriminate]. intros X. inversion X; subst.
   repeat split; auto. exists hd. split; reflexivity.
 Qed.
+
+(* ... and so does the first poll of a send future: Closed, the payload stays in the future *)
+Theorem rv_poll_send_after_last_rx c s f w r0 v :
+  CE s -> nopen Rx (hs s) = 0 ->
+  aget f (fs s) = Some r0 -> f_side r0 = Tx -> f_reg r0 = false -> f_cell r0 = Some v ->
+  step c s (Poll f w) = (s, OReadyClosed, []).
+Proof.
+  intros [C1 C2] Hz Hg Hs Hr Hc. assert (Z : N.eqb (rcnt s) 0 = true) by (apply N.eqb_eq; lia).
+  cbn [step]. rewrite Hg, Hs. unfold poll_send. rewrite Hr, Hc, Z.
+  destruct (fix_fut c && handle_closed s (f_h r0)); reflexivity.
+Qed.
